@@ -7,7 +7,8 @@ from .. import core
 EV_COLS = ["Sequence", "Modified sequence", "Raw file", "MS/MS scan number", "Score", "PEP", "Type", "Reverse",
            "Potential contaminant", "Proteins", "Comment"]
 SEQS = ["AAAMK", "CCCDK", "LLLMR", "GGGCR", "MMMK", "EEEEK"]
-RAWS = ["run_01", "run_02_b", "plain", "a_b_c_d"]
+# raw file names with underscore-delimited NUMERIC tokens inside the scan-number range (run_7 scan 7 -> PSM id run_7_7_2_1)
+RAWS = ["run_01", "run_02_b", "plain", "a_b_c_d", "run_7", "HeLa_12_rep", "3_3"]
 
 
 def mq_mod(rng, seq):
@@ -32,7 +33,7 @@ def gen_case(rng, n_ev_files=None):
             seq = rng.choice(SEQS)
             mod = mq_mod(rng, seq)
             mbr = rng.random() < 0.15
-            scan = "" if mbr else str(rng.randint(1, 30))
+            scan = "" if mbr else str(rng.choice([rng.randint(1, 30), 7, 12, 3, 2]))
             rows.append([seq, "_" + mod + "_", raw, scan, rng.choice(["100.5", "7", "NaN", "55.25"]),
                          rng.choice(["0.01", "1e-05", "NaN", "0.5"]), rng.choice(["MULTI-MSMS", "MSMS", "MULTI-MATCH"]),
                          rng.choice(["", "", "+"]), rng.choice(["", "", "+"]), "P1;P2",
